@@ -77,6 +77,12 @@ CHECKS["C12"] = dict(
     note="Trusted: TLC, the W3 facade rig, writing label indices into the block as the wiring. Platforms without a constructible facade (C11 finding) contribute nothing.",
     design="§4 C12")
 
+CHECKS["C19"] = dict(
+    technique="SnapshotLog.tla (parser line automaton + writer line sequence) with laws model-checked by TLC; abstract behaviours concretised with the shell's real logging statements/formatter, a real client's DEBUG traffic log, and every shipped snapshot served by the real simulator to both real clients; records judged by TLC (C19_Judge)",
+    text="TLC checks that a writer block parses back to exactly its fields under any surrounding junk lines, that two blocks yield two snapshots and that segments join in order. The real do_snapshot/version_strings statements are run through the shell's log-file formatter for blocks covering every byte value at every position residue, quotes, backslashes and control bytes, with junk lines around, and parsed back; real threaded-client traffic logs of a full connection (segment sizes 1..255, perturbed blocks) must reassemble to the transferred block; each of the 38 snapshots in the 34 shipped files is loaded into the real simulator and fetched by the async and the threaded client, also with the simulator's own reliability factor below 1 (a client that connects must hold the snapshot's bytes).",
+    note="Trusted: TLC, W1/W2 doubles, the stub that carries the shell's logging statements. D17 (double quote in a full segment) was found and fixed.",
+    design="§4 C19")
+
 NOT_YET = {}
 
 
